@@ -101,10 +101,29 @@ def parse_default(text):
         return ("unparsable", text)
 
 
-def norm_default(v):
+def norm_default(v, ty=None, schema=None):
+    """Normalise a default value literal for comparison.  With a type, values that denote the same
+    input value are identified: 1 and 1.0 at a Float position, 4 and "4" at an ID position, a
+    single value and the one-item list at a list position."""
     if v is ABSENT:
         return ABSENT
     k = v[0]
+    if ty is not None:
+        if ty[0] == "NN":
+            return norm_default(v, ty[1], schema)
+        if k == "null":
+            return v
+        if ty[0] == "L":
+            items = v[1] if k == "list" else [v]
+            return ("list", [norm_default(x, ty[1], schema) for x in items])
+        name = ty[1]
+        if name == "Float" and k in ("int", "float"):
+            return ("float", float(v[1]))
+        if name == "ID" and k == "int":
+            return ("str", str(int(v[1])))
+        td = schema.types.get(name) if schema is not None else None
+        if td is not None and td.kind == "INPUT_OBJECT" and k == "obj":
+            return ("obj", sorted((n, norm_default(x, td.fields[n].type if n in td.fields else None, schema)) for n, x in v[1]))
     if k == "float":
         return ("float", float(v[1]))
     if k == "int":
@@ -116,10 +135,26 @@ def norm_default(v):
     return v
 
 
+def ref_to_type(r):
+    """Model type tuple from a normalised introspection type reference."""
+    if r is None:
+        return None
+    if r["kind"] == "NON_NULL":
+        inner = ref_to_type(r["ofType"])
+        return ("NN", inner) if inner is not None else None
+    if r["kind"] == "LIST":
+        inner = ref_to_type(r["ofType"])
+        return ("L", inner) if inner is not None else None
+    return ("N", r["name"])
+
+
 def norm_ref(r):
     if r is None:
         return None
     return {"kind": r.get("kind"), "name": r.get("name"), "ofType": norm_ref(r.get("ofType"))}
+
+
+SCHEMA = [None]  # the model of the run being checked (for type-aware default comparison)
 
 
 def norm_type(t):
@@ -129,12 +164,12 @@ def norm_type(t):
     out["fields"] = None if t.get("fields") is None else {
         f["name"]: {"name": f["name"], "description": f.get("description"),
                     "args": {a["name"]: {"name": a["name"], "description": a.get("description"), "type": norm_ref(a["type"]),
-                                         "defaultValue": norm_default(parse_default(a.get("defaultValue")))} for a in f["args"]},
+                                         "defaultValue": norm_default(parse_default(a.get("defaultValue")), ref_to_type(norm_ref(a["type"])), SCHEMA[0])} for a in f["args"]},
                     "type": norm_ref(f["type"]), "isDeprecated": f["isDeprecated"], "deprecationReason": f["deprecationReason"]}
         for f in t["fields"]}
     out["_n_fields"] = None if t.get("fields") is None else len(t["fields"])
     out["inputFields"] = None if t.get("inputFields") is None else {
-        f["name"]: {"name": f["name"], "type": norm_ref(f["type"]), "defaultValue": norm_default(parse_default(f.get("defaultValue")))}
+        f["name"]: {"name": f["name"], "type": norm_ref(f["type"]), "defaultValue": norm_default(parse_default(f.get("defaultValue")), ref_to_type(norm_ref(f["type"])), SCHEMA[0])}
         for f in t["inputFields"]}
     out["interfaces"] = None if t.get("interfaces") is None else sorted(x["name"] for x in t["interfaces"])
     out["enumValues"] = None if t.get("enumValues") is None else {v["name"]: dict(v) for v in t["enumValues"]}
@@ -146,14 +181,14 @@ def expected_norm(schema, td, incl):
     e = expected_type(schema, td, incl)
     if e["fields"] is not None:
         for f in e["fields"].values():
-            for a in f["args"].values():
-                a["defaultValue"] = norm_default(a["defaultValue"])
+            for an_, a in f["args"].items():
+                a["defaultValue"] = norm_default(a["defaultValue"], td.fields[f["name"]].args[an_].type, schema)
         e["_n_fields"] = len(e["fields"])
     else:
         e["_n_fields"] = None
     if e["inputFields"] is not None:
         for f in e["inputFields"].values():
-            f["defaultValue"] = norm_default(f["defaultValue"])
+            f["defaultValue"] = norm_default(f["defaultValue"], td.fields[f["name"]].type, schema)
     if e["kind"] == "OBJECT" and e["interfaces"] is None:
         e["interfaces"] = []
     return e
@@ -302,6 +337,7 @@ def run_one(seed, preset=None, tier="quick", want_case=False):
             forget(n)
         shutil.rmtree(tmp, ignore_errors=True)
     compared = 0
+    SCHEMA[0] = schema
     if not viol:
         model_types = {n: td for n, td in schema.types.items()}
         for mode in modes:
@@ -381,10 +417,10 @@ def run_one(seed, preset=None, tier="quick", want_case=False):
                     g = gd[dn]
                     exp = {"name": dn, "description": dd.description, "locations": sorted(dd.locations),
                            "args": {a.name: {"name": a.name, "description": a.description, "type": type_ref(schema, a.type),
-                                             "defaultValue": norm_default(a.default)} for a in dd.args.values()}}
+                                             "defaultValue": norm_default(a.default, a.type, schema)} for a in dd.args.values()}}
                     gotd = {"name": g["name"], "description": g.get("description"), "locations": sorted(g["locations"]),
                             "args": {a["name"]: {"name": a["name"], "description": a.get("description"), "type": norm_ref(a["type"]),
-                                                 "defaultValue": norm_default(parse_default(a.get("defaultValue")))} for a in g["args"]}}
+                                                 "defaultValue": norm_default(parse_default(a.get("defaultValue")), ref_to_type(norm_ref(a["type"])), schema)} for a in g["args"]}}
                     d = diff_dict(gotd, exp)
                     if d:
                         viol.append(V("directive_differs", "[%s] directive @%s: reported != declared at %s" % (mode, dn, d)))
